@@ -26,6 +26,7 @@ from easynetwork.lowlevel.api_async.endpoints.stream import AsyncStreamEndpoint
 from easynetwork.protocol import StreamProtocol
 from easynetwork.serializers import StringLineSerializer
 
+from vlib import netutil  # noqa: E402
 from vlib import vloop
 
 PROPERTY = "C20"
@@ -62,15 +63,7 @@ WATCHDOG = {"quick": 1200, "thorough": 7200}
 
 
 def _tcp_pair_small():
-    srv = socket.socket()
-    srv.setsockopt(socket.SOL_SOCKET, socket.SO_RCVBUF, 4096)
-    srv.bind(("127.0.0.1", 0))
-    srv.listen(1)
-    c = socket.socket()
-    c.setsockopt(socket.SOL_SOCKET, socket.SO_SNDBUF, 4096)
-    c.connect(srv.getsockname())
-    s, _ = srv.accept()
-    srv.close()
+    c, s = netutil.tcp_pair(sndbuf=4096, rcvbuf=4096, nodelay=False)
     s.setblocking(False)
     return c, s
 
@@ -238,9 +231,9 @@ def datagram_scenario(ctx, rng: random.Random) -> str | None:
         from easynetwork.lowlevel.api_async.backend._asyncio.datagram.endpoint import create_datagram_endpoint
 
         a = socket.socket(socket.AF_INET, socket.SOCK_DGRAM)
-        a.bind(("127.0.0.1", 0))
+        a.bind((netutil.rand_loopback(), 0))
         b = socket.socket(socket.AF_INET, socket.SOCK_DGRAM)
-        b.bind(("127.0.0.1", 0))
+        b.bind((netutil.rand_loopback(), 0))
         a.connect(b.getsockname())
         a.setblocking(False)
         ep = await create_datagram_endpoint(sock=a)
